@@ -142,7 +142,8 @@ def equal(x: _CoreArray, y: _CoreArray) -> _CoreArray:
 
 @eager_propagate
 def reshape(x: _CoreArray, shape: _CoreArray) -> _CoreArray:
-    return _CoreArray(op.reshape(x.var, shape.var))
+    # allowzero: a 0 in the target shape means an extent of 0, not "copy the input's extent"
+    return _CoreArray(op.reshape(x.var, shape.var, allowzero=True))
 
 
 @eager_propagate
